@@ -1,6 +1,7 @@
 package eni
 
 import (
+	"context"
 	"time"
 
 	"golang.org/x/time/rate"
@@ -48,3 +49,6 @@ func VerifInspect(l *Local) VerifLocalInfo {
 
 // VerifWake broadcasts on the Local's condition (used while shutting a case down).
 func VerifWake(l *Local) { l.cond.Broadcast() }
+
+// VerifSyncPool runs one pass of the pool balancer (normally driven by a timer).
+func VerifSyncPool(ctx context.Context, m *Manager) { m.syncPool(ctx) }
